@@ -42,6 +42,14 @@ static vh_set_t outcome_set;
 
 typedef struct hist_s { int n; kop_t ops[MAXOPS]; } hist_t;
 
+/* --base "<history>": a preparation run executed before the enumerated history on the same disk (no
+ * markers, not part of the acknowledged set); crash points start after it.  It should end durably
+ * (flush, reopen) so that its effects are part of every crash image's expected contents. */
+#define MAXBASE 400
+static kop_t base_ops[MAXBASE];
+static int nbase_ops;
+static char base_text[300];
+
 typedef struct rec_s {
   const hist_t *h;
   vfs_t *v;
@@ -49,6 +57,8 @@ typedef struct rec_s {
   int nacks;
   int seg[KH_MAXACK];        /* inode id of the log segment a batch was appended to */
   int seg_unlink[KH_MAXACK]; /* journal index of that log's unlink, or INT_MAX */
+  kmodel_t base_model;       /* contents after the --base run */
+  int t0;                    /* journal length after the --base run: first crash point */
   int ok;
   char err[300];
 } rec_t;
@@ -94,6 +104,22 @@ record_body(void *arg) {
     snprintf(r->err, sizeof(r->err), "open failed while recording: %d", rc);
     kh_clear(&h);
     return;
+  }
+  if (nbase_ops) {
+    h.markers = 0;
+    for (i = 0; i < nbase_ops; i++) {
+      rc = kh_apply(&h, &base_ops[i]);
+      if (rc != LDB_OK || !h.db) {
+        r->ok = 0;
+        snprintf(r->err, sizeof(r->err), "base op %d returned %d while recording on a healthy FS", i, rc);
+        kh_clear(&h);
+        return;
+      }
+    }
+    h.markers = 1;
+    h.nacks = 0;
+    r->base_model = h.model;
+    r->t0 = vfs_jlen(vfs_cur);
   }
   for (i = 0; i < r->h->n; i++) {
     rc = kh_apply(&h, &r->h->ops[i]);
@@ -269,7 +295,7 @@ fill_lens(const rec_t *r, const img_desc_t *d, const size_t *W, const size_t *S,
 static void
 fold(const rec_t *r, uint32_t U, kmodel_t *m) {
   int i;
-  memset(m, 0, sizeof(*m));
+  *m = r->base_model;
   for (i = 0; i < r->nacks; i++)
     if (U & (1u << i))
       kh_model_apply(m, &r->acks[i].op, r->acks[i].opidx);
@@ -284,9 +310,10 @@ report(const rec_t *r, const img_desc_t *d, const char *kind, const char *msg) {
   vb_init(&hb); vb_init(&rp); vb_init(&dt);
   khist_print(r->h->ops, r->h->n, &hb);
   kcfg_print(&cfg, cfgtxt, sizeof(cfgtxt));
-  vb_printf(&rp, "{\"history\":\"%s\",\"cfg\":\"%s\",\"starve\":%d,\"t\":%d,\"D\":%d,\"cls\":%d,\"torn_ino\":%d,\"torn_len\":%zu,\"others_written\":%d,\"paranoid\":%d,\"nest_t\":%d,\"nest_cls\":%d}",
-            hb.p ? hb.p : "", cfgtxt, bg_starve, d->t, d->D, d->cls, d->torn_ino, d->torn_len, d->others_written, d->paranoid,
+  vb_printf(&rp, "{\"base\":\"%s\",\"history\":\"%s\",\"cfg\":\"%s\",\"starve\":%d,\"t\":%d,\"D\":%d,\"cls\":%d,\"torn_ino\":%d,\"torn_len\":%zu,\"others_written\":%d,\"paranoid\":%d,\"nest_t\":%d,\"nest_cls\":%d}",
+            base_text, hb.p ? hb.p : "", cfgtxt, bg_starve, d->t, d->D, d->cls, d->torn_ino, d->torn_len, d->others_written, d->paranoid,
             d->nest_t, d->nest_cls);
+  if (nbase_ops) vb_printf(&dt, "prepared by [%s]; ", base_text);
   vb_printf(&dt, "history [%s] cfg %s; crash at journal index %d of %d, image %s (dir ops %d, %s%s), paranoid=%d%s: %s",
             hb.p ? hb.p : "", cfgtxt, d->t, r->v->njournal, cls_name[d->cls], d->D,
             d->others_written ? "files at written length" : "files at synced length",
@@ -519,7 +546,7 @@ explore_history(const hist_t *h) {
   S = malloc(sizeof(size_t) * (size_t)(r.v->ninodes + 1));
   vs_free(&verdict_seen); vs_init(&verdict_seen);
   vs_free(&nested_seen); vs_init(&nested_seen);
-  for (t = 0; t <= J; t++) {
+  for (t = r.t0; t <= J; t++) {
     int nd = vfs_ndirops_before(r.v, t), wm = vfs_watermark(r.v, t), D;
     img_desc_t d;
     /* crash points (not histories) are dealt to the shards: histories differ a lot in cost */
@@ -670,6 +697,11 @@ main(int argc, char **argv) {
   len = (int)drv_opt_long("len", 2);
   with_scripted = (int)drv_opt_long("scripted", 1);
   cfgs = drv_opt("cfgs", "B1");
+  if (drv_opt("base", NULL) && !drv.replay) {
+    snprintf(base_text, sizeof(base_text), "%s", drv_opt("base", ""));
+    nbase_ops = khist_parse(base_ops, MAXBASE, base_text);
+    if (nbase_ops < 0) vh_die("bad --base history");
+  }
   vs_init(&verdict_seen);
   vs_init(&nested_seen);
   vs_init(&outcome_set);
@@ -697,6 +729,11 @@ main(int argc, char **argv) {
     if (!json_str(drv.replay, "history", hb, sizeof(hb)) || !json_str(drv.replay, "cfg", cb, sizeof(cb)))
       vh_die("bad replay payload");
     if (!kcfg_parse(&cfg, cb)) vh_die("bad cfg");
+    if (cfg.universe >= 0) kv_set_universe(cfg.universe);
+    if (json_str(drv.replay, "base", base_text, sizeof(base_text)) && base_text[0]) {
+      nbase_ops = khist_parse(base_ops, MAXBASE, base_text);
+      if (nbase_ops < 0) vh_die("bad base history in replay");
+    }
     bg_starve = (int)json_long(drv.replay, "starve", 0);
     memset(&h, 0, sizeof(h));
     h.n = khist_parse(h.ops, MAXOPS, hb);
@@ -731,6 +768,7 @@ main(int argc, char **argv) {
   for (item = strtok_r(copy, ";", &save); item && !stop_now; item = strtok_r(NULL, ";", &save)) {
     if (!kcfg_parse(&cfg, item))
       vh_die("bad cfg %s", item);
+    if (cfg.universe >= 0) kv_set_universe(cfg.universe);
     drv_note("cfg %s: all histories of length <= %d over %d operations%s, every journal index, image classes min/max/dir-ahead/data-ahead/intermediate/torn, nested=%d", item, len, nalpha, with_scripted ? " + scripted histories" : "", nested_mode);
     enumerate(len, with_scripted);
   }
